@@ -352,7 +352,8 @@ Proof.
           - rewrite Qabs'_neg; lra. }
         split; [exact (Qmaxq_model _ _ _ _ Hqm Habs)|].
         split; [cbn [p_fin]; rewrite Qred_correct, this_plus, Hfin; unfold gf; cbn [fill_of f_fee]; rewrite this_Q2Qc; reflexivity|].
-        eapply pnl_ok_at_fill; [exact Htr|reflexivity|]. exact (this_estimate _ _).
+        eapply pnl_ok_at_fill; [exact Htr|reflexivity|].
+        match goal with |- this (p_pnl_u ?M) == mest ?M _ => exact (this_estimate M (f_price gf)) end.
       * (* reduce *)
         assert (Hlt' : this (f_qty gf) < this (p_qty m)) by exact Hlt.
         assert (Eq : this (f_qty gf) == of_qty f) by (unfold gf; cbn [fill_of f_qty]; apply this_Q2Qc).
@@ -365,7 +366,8 @@ Proof.
         destruct D as [D1 [D2 D3]]. unfold spec_fill. rewrite D1, D2, D3.
         cbn [pos_ok sp_qmax sp_fin p_qmax p_fin].
         split; [exact Hqm|]. split; [exact Hfin|].
-        eapply pnl_ok_at_fill; [exact Htr|reflexivity|]. exact (this_estimate _ _).
+        eapply pnl_ok_at_fill; [exact Htr|reflexivity|].
+        match goal with |- this (p_pnl_u ?M) == mest ?M _ => exact (this_estimate M (f_price gf)) end.
       * (* exact close: no position afterwards *)
         exact I.
       * (* flip: the remainder opens the opposite position, freshly opened *)
@@ -424,7 +426,7 @@ Definition ev_l1_wf (e : oevent) : Prop :=
 Definition ev_fill_wf (e : oevent) : Prop :=
   match e with OFill f => 0 < of_qty f | _ => True end.
 
-Lemma step_link15 indep t tm tr s sp e o :
+Lemma step_link15 (indep : bool) t tm tr s sp e o :
   0 <= tr -> tr = (if indep then 0 else tm) ->
   (indep = true -> ev_l1_wf e) -> ev_fill_wf e ->
   GJ indep tr s sp ->
@@ -459,7 +461,7 @@ Proof.
     + apply HG.
 Qed.
 
-Lemma run_link15 indep t tm tr : 0 <= tr -> tr = (if indep then 0 else tm) ->
+Lemma run_link15 (indep : bool) t tm tr : 0 <= tr -> tr = (if indep then 0 else tm) ->
   forall evs obs s sp,
   (indep = true -> Forall ev_l1_wf evs) -> Forall ev_fill_wf evs ->
   GJ indep tr s sp ->
@@ -473,9 +475,9 @@ Proof.
               omatch (exit_matches t) (exit_of_step s (eevent_of e)) (snd o)) eqn:Em;
       [|discriminate Hc].
     apply andb_prop in Em. destruct Em as [Em _].
-    inversion Hfw as [|? ? Hf1 Hf2]; subst.
-    assert (Hl1e : indep = true -> ev_l1_wf e) by (intros Ei; specialize (Hl1 Ei); inversion Hl1; assumption).
-    assert (Hl1r : indep = true -> Forall ev_l1_wf evs) by (intros Ei; specialize (Hl1 Ei); inversion Hl1; assumption).
+    apply Forall_cons_iff in Hfw. destruct Hfw as [Hf1 Hf2].
+    assert (Hl1e : indep = true -> ev_l1_wf e) by (intros Ei; specialize (Hl1 Ei); apply Forall_cons_iff in Hl1; tauto).
+    assert (Hl1r : indep = true -> Forall ev_l1_wf evs) by (intros Ei; specialize (Hl1 Ei); apply Forall_cons_iff in Hl1; tauto).
     destruct (step_link15 indep t tm tr s sp e (fst o) Htr Etr Hl1e Hf1 HG Em) as [Hv HG'].
     cbn [prop_run]. constructor; [exact Hv|].
     apply (IH obs _ _ Hl1r Hf2 HG' Hc).
